@@ -317,6 +317,66 @@ def colour_triples(ctx, only=None):
                 break
 
 
+def coroutine_invariants(ctx, only=None):
+    """Invariants are evaluated synchronously, around sync and async methods alike: a condition that hands out a coroutine
+    (a lambda calling an `async def` helper) is not judged by the coroutine object's truthiness - as for pre- and
+    postconditions on sync callables it is rejected with ValueError when it is evaluated."""
+    import warnings
+
+    import icontract
+    from vf.progmodel.run import drive
+
+    async def negative(self):
+        return False
+
+    for trigger in ("construction", "sync method", "async method", "property"):
+        if only and only != trigger:
+            continue
+
+        class K:
+            def __init__(self):
+                self.x = 1
+
+            def m(self):
+                return 1
+
+            async def am(self):
+                return 1
+
+            @property
+            def p(self):
+                return 1
+
+        with warnings.catch_warnings():
+            warnings.simplefilter("ignore", RuntimeWarning)
+            try:
+                KK = icontract.invariant(lambda self: negative(self))(K)
+                if trigger == "construction":
+                    KK()
+                else:
+                    k = object.__new__(KK)
+                    k.__dict__["x"] = 1
+                    if trigger == "sync method":
+                        k.m()
+                    elif trigger == "async method":
+                        drive(k.am())
+                    else:
+                        k.p
+                got = "accepted (the coroutine object counted as a truthy verdict)"
+            except ValueError as e:
+                got = "ValueError" if "coroutine" in str(e).lower() else "ValueError without a hint: %s" % e
+            except icontract.ViolationError:
+                got = "ViolationError"
+            except BaseException as e:  # noqa
+                got = "%s: %s" % (type(e).__name__, str(e)[:100])
+        ctx.case(["coroutine-invariant", trigger], True, sample={"family": "coroutine-invariant", "trigger": trigger, "outcome": got})
+        ctx.count("coroutine-invariants")
+        if got != "ValueError":
+            ctx.fail("coroutine-invariant|%s" % trigger.split()[0], {"family": "coroutine-invariant", "directed": trigger},
+                     "an invariant whose condition returns a coroutine, checked at %s: expected ValueError naming the coroutine, "
+                     "got: %s" % (trigger, got))
+
+
 def signature_pairs(ctx, tier):
     """Family (E): the same signature and call shape (positional-only / keyword-only / variadic parameters, defaults,
     surplus keywords incl. names equal to positional-only parameters) as `def` and as `async def`: the precondition,
@@ -392,11 +452,17 @@ def run(ctx, tier, seed, shard, nshards):
         ctx.count("directed_pair_programs", 24)
         signature_pairs(ctx, tier)
         colour_triples(ctx)
+        coroutine_invariants(ctx)
 
 
 def replay(ctx, case):
     warnings.simplefilter("ignore", RuntimeWarning)
     fam = case.get("family", "pair")
+    if fam == "coroutine-invariant":
+        before = ctx.evaluations
+        coroutine_invariants(ctx, only=case["directed"])
+        ctx.evaluations = before + 1
+        return
     if fam == "colour-triple":
         before = ctx.evaluations
         colour_triples(ctx, only=case["directed"])
